@@ -96,6 +96,8 @@ pub struct Profile {
     /// first block is a level-1 heading (a note title)
     pub force_title: Option<bool>,
     pub links_in_headings: bool,
+    /// section headings (level 2+) may hold a bare wiki link ("## Meeting with [[n2]] today")
+    pub wiki_in_section_headings: bool,
     /// 0 = lists up to 13 items, 1 = also ~100, 2 = also ~1000
     pub long_lists: u8,
     /// internal links inside table cells (C05 leaves cells undecided)
@@ -126,6 +128,7 @@ impl Profile {
             non_ascii: true,
             force_title: None,
             links_in_headings: false,
+            wiki_in_section_headings: false,
             long_lists: 1,
             cell_internal_links: true,
             piped_wiki: true,
@@ -441,6 +444,14 @@ impl<'a> Gen<'a> {
         }
         if v.is_empty() {
             v.push(self.word());
+        }
+        if !rich && self.p.wiki_in_section_headings && level >= 2 && self.rng.chance(1, 4) {
+            let internal: Vec<Target> = self.p.targets.iter().filter(|t| !t.external && crate::mdscan::is_note_like(&t.dest)).cloned().collect();
+            if !internal.is_empty() {
+                let t = self.rng.pick(&internal).clone();
+                v.push(Inl::Link { dest: t.dest, text: vec![], title: None, style: LStyle::Wiki });
+                v.push(self.word());
+            }
         }
         Blk::Heading(level, v, style)
     }
